@@ -26,7 +26,8 @@ Touches(e) ==
       [] e = "Description" -> {"PROBLEM"}
       \* an estimation step of pharmpy bundles method options, the covariance step and the table output
       \* (predictions / residuals): $COVARIANCE and $TABLE express that component as well
-      [] e \in {"EstOptions", "AddEst", "RemoveEst", "AddCov"} -> {"ESTIMATION", "COVARIANCE", "TABLE"}
+      \* (NEXTPROBLEM: everything from a second $PROBLEM on -- the $DESIGN problem of an EFIM step shares the MSF file name)
+      [] e \in {"EstOptions", "AddEst", "RemoveEst", "AddCov"} -> {"ESTIMATION", "COVARIANCE", "TABLE", "NEXTPROBLEM"}
       [] e = "PkStatement" -> {"PK"}
       [] e = "PredStatement" -> {"PRED"}
       [] e = "ErrorStatement" -> {"ERROR"}
